@@ -887,7 +887,9 @@ pub fn gen_memprobe(w: &mut impl Write, thorough: bool, seed: u64) {
     // several registered ranges: an access must lie inside ONE of them — two ranges separated by a gap, adjacent ranges, nested
     // ranges; accesses starting in one and ending in the other (over the gap), entirely inside either, and inside the gap
     let extra = pattern(64, 19); let mem = pattern(8, 11);
-    for (ranges, name) in [("0:16:20,0:24:28", "gap4"), ("0:16:18,0:22:24", "gap4b"), ("0:16:20,0:21:32", "gap1"), ("0:16:24,0:24:32", "adjacent"), ("0:8:40,0:16:24", "nested"), ("0:16:24,0:40:48", "far")] {
+    for (ranges, name) in [("0:16:20,0:24:28", "gap4"), ("0:16:18,0:22:24", "gap4b"), ("0:16:20,0:21:32", "gap1"), ("0:16:24,0:24:32", "adjacent"), ("0:8:40,0:16:24", "nested"), ("0:16:24,0:40:48", "far"),
+        // registration order: a later range that ends where an earlier one starts, or overlaps its head, takes nothing away from the earlier one
+        ("0:24:32,0:16:24", "adjacent-desc"), ("0:20:40,0:16:24", "tail-then-head"), ("0:24:28,0:16:20", "gap-desc"), ("0:16:24,0:8:40", "nested-desc")] {
         let _ = name;
         for &(ldx, st, stx, _labs, _lind, wd) in &widths { for start in 12i64..34 { for kind in 0..4 {
             if kind == 3 && wd < 4 { continue; }
